@@ -468,8 +468,10 @@ func runC18(c *fw.Check) {
 	if !TreegenAvailable {
 		fw.Fatalf("C18 needs the treegen table (build through ./check)")
 	}
-	c.Rule = "every typed constant of every integer-based type with a String method declared in ir/enum (and types.FloatKind), LISTED FROM THE CURRENT SOURCE by go/types at check time: FromString(String(v))==v, keywords pairwise distinct per type, and each value printed inside a minimal module built through the API, re-parsed and read back (one module template per family); flag sets: all subsets of AllocKind members, all subsets of DISPFlag members, all DIFlag subsets of <=3 (thorough <=4) members and their complements, printed+parsed and compared as values. distinct = distinct (type,value) and (type,set) cases."
+	c.Rule = "every typed constant of every integer-based type with a String method declared in ir/enum (and types.FloatKind), LISTED FROM THE CURRENT SOURCE by go/types at check time: FromString(String(v))==v, keywords pairwise distinct per type, and each value printed inside a minimal module built through the API, re-parsed and read back (one module template per family), AND on every further entity that has a field of the enum's type (found by reflection: linkage/visibility/preemption/DLL storage/unnamed_addr/TLS model on function declarations, definitions, aliases and ifuncs; calling convention on declarations, definitions, call, invoke, callbr; atomic orderings on load, store, cmpxchg success and failure, atomicrmw; fast-math flags on all FP instructions, fcmp, select, call; overflow flags on add/sub/mul/shl; tail kinds on call), values LLVM does not admit at a position being skipped; flag sets: all subsets of AllocKind members, all subsets of DISPFlag members, all DIFlag subsets of <=3 (thorough <=4) members and their complements, printed+parsed and compared as values. distinct = distinct (type,value) and (type,set) cases."
 	nTypes, nConsts := 0, 0
+	carriers := c18carriers()
+	usedCarriers := map[string]bool{}
 	missingTemplate := []string{}
 	noPosition := []string{}
 	for _, et := range EnumTable {
@@ -532,8 +534,15 @@ func runC18(c *fw.Check) {
 				continue
 			}
 			c18roundtrip(c, et, fam, byVal[v], v)
+			c18runCarriers(c, et, byVal[v], v, carriers, usedCarriers)
 		}
 	}
+	var ucs []string
+	for k := range usedCarriers {
+		ucs = append(ucs, k)
+	}
+	sort.Strings(ucs)
+	c.Extra["additional_carriers"] = ucs
 	c.Extra["constants_without_grammar_position"] = noPosition
 	c.Extra["enum_types"] = nTypes
 	c.Extra["enum_constants_distinct"] = nConsts
@@ -644,6 +653,10 @@ func replayC18(c *fw.Check, path string) {
 	var cs c18case
 	loadReplay(path, &cs)
 	for _, et := range EnumTable {
+		if strings.HasPrefix(cs.Type, et.Name+"@") {
+			fmt.Printf("replay carrier %s %s:\n%s\n", cs.Type, cs.Const, cs.Text)
+			c18runCarriers(c, et, cs.Const, cs.Value, c18carriers(), map[string]bool{})
+		}
 		if et.Name != cs.Type {
 			continue
 		}
